@@ -1156,6 +1156,167 @@ func orderViolation(em []map[string]interface{}) string {
 	return ""
 }
 
+// ---- C09 (c): both roles implemented by the library --------------------------------------
+
+type pairRun struct {
+	cfg        Config
+	sel        string
+	cliTLS     bool
+	confirmed  string // encryption confirmed on the wire ("" = no negotiation happened)
+	afterConf  []string
+	authEncAt  string
+	authCalled bool
+	cliErr     error
+	srvErr     error
+	cliState   lime.SessionState
+	cliEnc     string
+	srvEnc     string
+	cliComp    string
+	srvComp    string
+	snap       bool
+}
+
+// pairBody runs the real client channel against the real server channel over a virtual
+// connection for every configuration x client selector x client TLS capability; a tap on
+// both directions classifies every chunk as cleartext JSON or TLS record.
+func pairBody(x *harness.X) {
+	lib.Reset()
+	cfg := Configs[rt.Choose(len(Configs))]
+	r := &pairRun{cfg: cfg}
+	x.Vars["pair"] = r
+	r.sel = []string{"none", "tls", "first-offered"}[rt.Choose(3)]
+	r.cliTLS = rt.Choose(2) == 1
+	c, sconn := rt.Pipe(64 << 10)
+	c.Name, sconn.Name = "client", "server"
+	tap := func(dir string) func(b []byte) {
+		return func(b []byte) {
+			kind := "json"
+			if lib.IsTLSRecord(b) {
+				kind = "tls"
+			}
+			if r.confirmed != "" {
+				r.afterConf = append(r.afterConf, dir+":"+kind)
+			}
+			if dir == "s>c" && kind == "json" && strings.Contains(string(b), `"state":"negotiating"`) && !strings.Contains(string(b), "encryptionOptions") {
+				var m map[string]interface{}
+				if json.Unmarshal(b, &m) == nil {
+					r.confirmed = lib.Str(m, "encryption")
+				}
+			}
+		}
+	}
+	c.Tap, sconn.Tap = tap("c>s"), tap("s>c")
+	srvCfg, cliCfg := &lime.TCPConfig{}, &lime.TCPConfig{}
+	if cfg.TLS {
+		srvCfg.TLSConfig = lib.TLSServerConfig()
+	}
+	if r.cliTLS {
+		cliCfg.TLSConfig = lib.TLSClientConfig()
+	}
+	st := lime.NewTCPTransportFromConn(sconn, srvCfg, true)
+	ct := lime.NewTCPTransportFromConn(c, cliCfg, false)
+	sc := lime.NewServerChannel(st, 1, lib.ServerNode, "sid-pair")
+	cc := lime.NewClientChannel(ct, 1)
+	ctx, cancel := context.WithTimeout(context.Background(), 40*time.Second)
+	defer cancel()
+	done := make(chan struct{})
+	go func() {
+		defer close(done)
+		r.srvErr = sc.EstablishSession(ctx, cfg.Comp, cfg.Enc, cfg.Schemes,
+			func(ctx context.Context, id lime.Identity, a lime.Authentication) (*lime.AuthenticationResult, error) {
+				r.authCalled = true
+				r.authEncAt = string(st.Encryption())
+				return lime.MemberAuthenticationResult(), nil
+			}, lib.RegisterSame)
+	}()
+	var encSel lime.EncryptionSelector
+	switch r.sel {
+	case "none":
+		encSel = lime.NoneEncryptionSelector
+	case "tls":
+		encSel = lime.TLSEncryptionSelector
+	default:
+		encSel = func(o []lime.SessionEncryption) lime.SessionEncryption {
+			if len(o) > 0 {
+				return o[0]
+			}
+			return lime.SessionEncryptionNone
+		}
+	}
+	auth := func(schemes []lime.AuthenticationScheme, _ lime.Authentication) lime.Authentication {
+		for _, s := range schemes {
+			switch s {
+			case lime.AuthenticationSchemeGuest:
+				return &lime.GuestAuthentication{}
+			case lime.AuthenticationSchemePlain:
+				a := &lime.PlainAuthentication{}
+				a.SetPasswordAsBase64("secret")
+				return a
+			case lime.AuthenticationSchemeTransport:
+				return &lime.TransportAuthentication{}
+			}
+		}
+		return &lime.GuestAuthentication{}
+	}
+	ses, err := cc.EstablishSession(ctx, lime.NoneCompressionSelector, encSel, lime.Identity{Name: "alice", Domain: "cli.test"}, auth, "home")
+	r.cliErr = err
+	if ses != nil {
+		r.cliState = ses.State
+	}
+	if err != nil {
+		_ = cc.Close() // a client whose handshake failed hangs up
+	}
+	<-done
+	r.cliEnc, r.srvEnc = string(ct.Encryption()), string(st.Encryption())
+	r.cliComp, r.srvComp = string(ct.Compression()), string(st.Compression())
+	x.Obs("cfg=%s sel=%s cliTLS=%v confirmed=%q client=%v/%v server-err=%v", cfg.Name, r.sel, r.cliTLS, r.confirmed, r.cliState, err != nil, r.srvErr != nil)
+	r.snap = true
+	rt.Stop()
+}
+
+func pairFinal(x *harness.X, res *rt.Result) {
+	r, _ := x.Vars["pair"].(*pairRun)
+	if r == nil {
+		return
+	}
+	tag := fmt.Sprintf("[cfg %s; client selector %s, client TLS config %v; %s]", r.cfg.Name, r.sel, r.cliTLS, strings.Join(x.Log(), " | "))
+	if res.Crash != "" {
+		x.Failf("C09:pair:panic:"+res.CrashSite, "%s %s", strings.SplitN(res.Crash, "\n", 2)[0], tag)
+		return
+	}
+	if !r.snap {
+		return
+	}
+	if r.confirmed == "tls" {
+		for i, k := range r.afterConf {
+			if strings.HasSuffix(k, ":json") {
+				x.Failf("C09:pair:cleartext-after-confirmation", "chunk %d after the tls confirmation travelled in cleartext (%s) %s", i, k, tag)
+				break
+			}
+		}
+	}
+	if r.authCalled {
+		want := "none"
+		if r.confirmed != "" {
+			want = r.confirmed
+		}
+		if r.authEncAt != want {
+			x.Failf("C09:pair:auth-before-switch", "Authenticate ran with server encryption %q, the confirmed option was %q %s", r.authEncAt, want, tag)
+		}
+	}
+	if r.cliErr == nil && r.cliState == lime.SessionStateEstablished {
+		if r.cliEnc != r.srvEnc || r.cliComp != r.srvComp {
+			x.Failf("C09:pair:ends-disagree", "established with client encryption/compression %s/%s and server %s/%s %s", r.cliEnc, r.cliComp, r.srvEnc, r.srvComp, tag)
+		}
+		if r.confirmed != "" && r.cliEnc != r.confirmed {
+			x.Failf("C09:pair:confirmed-not-applied", "confirmed encryption %q but the established connection uses %q %s", r.confirmed, r.cliEnc, tag)
+		}
+		if noCleartextCfg(r.cfg) && r.srvEnc != "tls" {
+			x.Failf("C10:pair:established-over-cleartext", "server configured with %v established over %q %s", r.cfg.Enc, r.srvEnc, tag)
+		}
+	}
+}
+
 // Main builds the check for one property out of the shared tree.
 func Main(prop string) {
 	opt := rt.Options{Horizon: 120 * time.Second, MaxSteps: 100000, NoTimerDeviation: true}
@@ -1184,6 +1345,7 @@ func Main(prop string) {
 		add("server/tls-only/d5", "server", c, 5, true, -1, 0)
 		add("channel/tls-only/d5", "channel", c, 5, true, -1, 0)
 	case "C09":
+		scs = append(scs, harness.Scenario{Name: "pair/library-both-roles", Opt: opt, Quick: 0, Thorough: 0, Body: pairBody, Final: pairFinal})
 		add("server/all/d4", "server", all, 4, false, 0, -1)
 		add("channel/all/d4", "channel", all, 4, false, 0, -1)
 		add("server/all/d6", "server", all, 6, true, -1, 0)
